@@ -5,10 +5,11 @@
    cross-checked against the implementation on every run of ./check C18. Spec.IhexSpec is the I32HEX
    format definition with its reference reader ([read_line]: hex text, length byte, checksum) and the
    denotation [denote_file] (blocks of bytes at absolute addresses, start address).
-   Scope: c18_load_save is proved only as a bounded statement (computation over the 1926 HexFiles of
-   Proofs.C18_bounded.family); the unbounded round trip load (save hf) = hf is NOT proved (partial). *)
+   c18_load_save is unbounded (every well-formed HexFile); c18_load_save_bounded is the earlier
+   computational instance (1926 HexFiles), kept as an independent cross-check of the model. *)
 From PV Require Import Lib.Py Spec.IhexSpec Model.Hexfile Proofs.C18_hexfile Proofs.C18_refuted
-  Proofs.C18_bounded.
+  Proofs.C18_bounded Proofs.C18_loadsave Proofs.C18_complete Proofs.C18_text Proofs.C18_reader.
+From Coq Require Import Permutation String.
 Open Scope Z_scope.
 
 (* valid_line l = 0 <= address < 65536, typ a byte, data bytes, fewer than 256 of them *)
@@ -48,13 +49,73 @@ Theorem c18_save_denotes : forall hf, hexfile_ok hf ->
 Proof. exact save_denotes. Qed.
 Print Assumptions c18_save_denotes.
 
-(* bounded: load (save hf) = hf, regions and start address, for the 1926 canonical HexFiles of
+(* computational instance of c18_load_save: load (save hf) = hf, regions and start address, for the 1926 canonical HexFiles of
    [family] (1..5 regions, 21 anchor addresses around 0 / 64 KiB multiples / 16 MiB / 2^32, 11 sizes up to
    95 bytes and one 65600-byte region, start addresses 0, 1, 0x1234, 2^32-1) *)
 Theorem c18_load_save_bounded : forall hf, In hf family -> exists lines, save hf = Ok lines /\
   exists hf', load lines = Ok hf' /\ hexfile_eqb hf' hf = true.
 Proof. exact load_save_bounded. Qed.
 Print Assumptions c18_load_save_bounded.
+
+(* text shape: every saved line is ':' followed only by characters 0-9 a-f and has at most 71 characters
+   (the format allows 1 + 2 * 260 = 521; print() then appends "\n") *)
+Theorem c18_lines_ascii_and_length : forall hf lines, hexfile_ok hf -> save hf = Ok lines ->
+  Forall line_ok lines.
+Proof. exact save_lines_shape. Qed.
+Print Assumptions c18_lines_ascii_and_length.
+
+(* wf_hexfile hf = hexfile_ok hf (regions non-empty, bytes, inside [0, 2^32); 0 <= start_address < 2^32)
+   and canonical (regions hf) (ascending, a gap between neighbours). UNBOUNDED round trip: loading the
+   saved text gives back exactly hf — the same region list and the same start address — for any number and
+   size of regions, incl. regions spanning several 64 KiB pages. *)
+Theorem c18_load_save : forall hf, wf_hexfile hf ->
+  exists lines, save hf = Ok lines /\ load lines = Ok hf.
+Proof. exact load_save. Qed.
+Print Assumptions c18_load_save.
+
+(* reading direction, for ANY text (not only what save writes; upper- or lower-case hex): if the reference
+   I32HEX reader gives the file a denotation (blocks, start) and the data records are non-empty and do not
+   overlap, then load succeeds, its regions are canonical and hold exactly the denoted bytes, and its start
+   address is the denoted one (0 when the file has no type-05 record) *)
+Theorem c18_load_denotes : forall lines blocks st, denote_file lines = Some (blocks, st) ->
+  disjoint_set blocks ->
+  exists hf, load lines = Ok hf /\ canonical (regions hf) /\
+             (forall z x, holds (regions hf) z x <-> holds blocks z x) /\
+             start_address hf = start_of st.
+Proof. exact load_denotes. Qed.
+Print Assumptions c18_load_denotes.
+
+(* completeness of check: disjoint_set rs = all regions non-empty, no region listed twice, any two
+   different regions do not overlap (r_end r1 <= fst r2 or r_end r2 <= fst r1), in any order *)
+Theorem c18_check_succeeds : forall rs, disjoint_set rs -> exists rs', check rs = Ok rs'.
+Proof. exact check_succeeds. Qed.
+Print Assumptions c18_check_succeeds.
+
+(* add_region in any insertion order: accepted, and the final regions are canonical and hold exactly
+   the inserted bytes; two insertion orders of the same set give the same memory image *)
+Theorem c18_add_region_any_order : forall seq, disjoint_set seq ->
+  exists hf, add_all seq empty_hexfile = Ok hf /\ canonical (regions hf) /\
+             (forall a x, holds (regions hf) a x <-> holds seq a x) /\ start_address hf = 0.
+Proof. exact add_all_succeeds. Qed.
+Print Assumptions c18_add_region_any_order.
+
+Theorem c18_add_region_order_irrelevant : forall seq seq', Permutation seq seq' -> disjoint_set seq ->
+  exists hf hf', add_all seq empty_hexfile = Ok hf /\ add_all seq' empty_hexfile = Ok hf' /\
+                 forall a x, holds (regions hf) a x <-> holds (regions hf') a x.
+Proof. exact add_all_perm. Qed.
+Print Assumptions c18_add_region_order_irrelevant.
+
+(* an overlap is refused with HexFileException (Diag 1): for check on any list containing two overlapping
+   non-empty regions, and for add_region of a region overlapping one already present *)
+Theorem c18_check_rejects_overlap : forall rs r1 r2 rest, nonempty rs ->
+  Permutation (r1 :: r2 :: rest) rs -> ~ no_overlap r1 r2 -> check rs = Diag 1.
+Proof. exact check_rejects. Qed.
+Print Assumptions c18_check_rejects_overlap.
+
+Theorem c18_add_region_rejects_overlap : forall hf a d r, canonical (regions hf) -> 0 < len d ->
+  In r (regions hf) -> ~ no_overlap r (a, d) -> add_region hf a d = Diag 1.
+Proof. exact add_region_rejects_overlap. Qed.
+Print Assumptions c18_add_region_rejects_overlap.
 
 (* ---- the functions as they were before the fixes violate the property *)
 Theorem c18_check_merges_refuted : exists rs rs' a x,
@@ -88,3 +149,11 @@ Example c18_nonvacuous :
   | _ => false
   end = true.
 Proof. vm_compute. reflexivity. Qed.
+
+(* c18_load_denotes is not vacuous: a third-party style file (upper-case hex, records out of address order) *)
+Example c18_reader_nonvacuous :
+  let lines := [":020000040001F9"%string; ":02FFFE00AABB9C"%string; ":0400000500001234B1"%string;
+                ":010010007778"%string; ":00000001FF"%string] in
+  denote_file lines = Some ([(131070, [170; 187]); (65552, [119])], Some 4660) /\
+  load lines = Ok (mkHexFile [(65552, [119]); (131070, [170; 187])] 4660).
+Proof. vm_compute. split; reflexivity. Qed.
